@@ -193,6 +193,13 @@ func runLineWith(ti, to jsonline.Template, line []byte, late func(ti, to jsonlin
 			imp, exp = ti.GetImporter(rd), to.GetExporter(w)
 		} else {
 			imp, exp = jsonline.NewImporter(rd).WithTemplate(ti), jsonline.NewExporter(w).WithTemplate(to)
+			// a template that declares nothing is what an importer / exporter has when WithTemplate is never called
+			if late == nil && ti.CreateRowEmpty().Len() == 0 {
+				imp = jsonline.NewImporter(rd)
+			}
+			if late == nil && to.CreateRowEmpty().Len() == 0 {
+				exp = jsonline.NewExporter(w)
+			}
 		}
 		if late != nil {
 			late(ti, to)
@@ -943,6 +950,13 @@ func sameNames(r *rng, ti []colDesc, types bool) []colDesc {
 // formats so that most lines are accepted, hidden anywhere, sub-rows to depth 3.
 func orderCols(r *rng, depth int) []colDesc {
 	names := []string{"zz", "m", "aa", "q", "b", "a", "k", "é", "", "a.b"}
+	if r.chance(1, 4) {
+		// names a writer must escape the JSON way, not another way: DEL, a non-printable astral code point, a
+		// character HTML-escaping touches (all three may stand raw in the JSON text of the input)
+		names[r.intn(len(names))] = "k\x7f"
+		names[r.intn(len(names))] = "\U000e0001z"
+		names[r.intn(len(names))] = "<&>"
+	}
 	for i := len(names) - 1; i > 0; i-- {
 		j := r.intn(i + 1)
 		names[i], names[j] = names[j], names[i]
@@ -1153,6 +1167,12 @@ func genC03(cw *caseWriter, seed uint64, tier string) {
 			emitLine(cw, "C03", rev, to, line, true)
 		}
 		emitLine(cw, "C03", ti, to, line, true)
+		if r.chance(1, 5) && !hasSub(ti) {
+			// an exporter that declares nothing behind an importer that declares (and hides) columns: every member of
+			// the row is written, in the row's order — twice, so that both spellings of "no template" are used
+			emitLine(cw, "C03", ti, nil, line, true)
+			emitLine(cw, "C03", ti, nil, line, true)
+		}
 		if r.chance(1, 6) {
 			batch := [][]byte{line}
 			for k := 2 + r.intn(6); k > 0; k-- {
@@ -1184,6 +1204,15 @@ func genC03(cw *caseWriter, seed uint64, tier string) {
 			}
 		}
 	}
+}
+
+func hasSub(cols []colDesc) bool {
+	for _, c := range cols {
+		if c.isSub {
+			return true
+		}
+	}
+	return false
 }
 
 func genC04(cw *caseWriter, seed uint64, tier string) {
@@ -1374,7 +1403,9 @@ type jgen struct {
 var numberSpellings = []string{"0", "-0", "1", "-1", "12", "1.5", "-2.25", "1E+2", "1e2", "1e-2", "0.10", "0.0", "1.0e0", "123456789012345678901234567890", "1e-400", "1e400", "-0.0e-0", "9223372036854775808", "0.1E1", "5e-324"}
 
 func (g *jgen) str() string {
-	classes := []string{"\\\\u003c", "\\\\u0026x", "\\\\u003e", "\\\\n", "\\\\\\\"", "a", "b c", "é", "日本", "\U0001F600", "\\u00e9", "\\ud83d\\ude00", "\\n", "\\t", "\\\"", "\\\\", "\\/", "\\b\\f\\r", "\\u0000", "\\u001f", "<>&", "\\u2028", "\u2028", "\\u007f", "\x7f", "'", "`", " ", ""}
+	classes := []string{"\\\\u003c", "\\\\u0026x", "\\\\u003e", "\\\\n", "\\\\\\\"", "a", "b c", "é", "日本", "\U0001F600", "\\u00e9", "\\ud83d\\ude00", "\\n", "\\t", "\\\"", "\\\\", "\\/", "\\b\\f\\r", "\\u0000", "\\u001f", "<>&", "\\u2028", "\u2028", "\\u007f", "\x7f", "'", "`", " ", "",
+		// characters that mean something to a formatter, a template engine, a shell, a regexp or a path — not to JSON
+		"%", "%d", "%!s(MISSING)", "100%", "%%", "{{.}}", "${x}", "$1", "\\\\n", "*", "[0]", "a.b", "#", "\u00a0", "\ufeff"}
 	var sb strings.Builder
 	for k := g.r.intn(4); k > 0; k-- {
 		sb.WriteString(pick(g.r, classes))
